@@ -221,12 +221,119 @@ theorem C20_cutLoop_eq_cutKeep (v : List (Nat × Nat)) (start end_ : Nat) :
     obtain ⟨seen', G', _, hr⟩ := cutLoop_inv (v.drop end_) (v.take end_) [] seen0 end_ end_ hpl.symm
       (by simp; omega)
     simp only [List.nil_append, List.take_append_drop, List.length_drop] at hr
-    rw [hr, hcg]
-    simp only [Option.map_some, Option.some.injEq, Prod.mk.injEq, and_true]
+    simp only [hr, hcg, Option.map_some, Option.some.injEq, Prod.mk.injEq, and_true]
     generalize cutKeep (((v.drop start).take (end_ - start)).map (·.1)) (v.drop end_) = kept
     rw [← List.append_assoc, List.take_append_of_le_length (by simp; omega)]
     apply List.take_of_length_le
     simp; omega
   · rfl
+
+/-! ### the whole of `backtrack_cut` -/
+
+theorem csub_fold (l : List Branch) (e0 : Nat) :
+    l.foldlM (fun e b => csub e b.nsave) e0 = if sumNsave l ≤ e0 then some (e0 - sumNsave l) else none := by
+  induction l generalizing e0 with
+  | nil => simp [sumNsave]
+  | cons b l ih =>
+    rw [List.foldlM_cons, sumNsave_cons]
+    by_cases hb : b.nsave ≤ e0
+    · have hc : csub e0 b.nsave = some (e0 - b.nsave) := by simp only [csub, hb, ↓reduceIte]
+      rw [hc]
+      simp only [Option.bind_eq_bind, Option.bind_some, ih]
+      by_cases h2 : sumNsave l ≤ e0 - b.nsave
+      · have : b.nsave + sumNsave l ≤ e0 := by omega
+        simp only [h2, this, ↓reduceIte, Option.some.injEq]; omega
+      · have : ¬ b.nsave + sumNsave l ≤ e0 := by omega
+        simp only [h2, this, ↓reduceIte]
+    · have hc : csub e0 b.nsave = none := by simp only [csub, hb, ↓reduceIte]
+      have : ¬ b.nsave + sumNsave l ≤ e0 := by omega
+      rw [hc]
+      simp only [this, ↓reduceIte, Option.bind_eq_bind, Option.bind_none]
+
+theorem sumNsave_reverse (l : List Branch) : sumNsave l.reverse = sumNsave l := by
+  simp [sumNsave, List.sum_reverse]
+
+/-- the three slices of the Rust-oriented vector, in the model's orientation -/
+theorem lit_slices (o : List (Nat × Nat)) (m1 bn end_ start : Nat) (h : m1 + bn ≤ o.length)
+    (he : end_ = o.length - m1) (hs : start = end_ - bn) :
+    o.reverse.take end_ = (o.drop m1).reverse ∧ o.reverse.drop end_ = (o.take m1).reverse ∧
+    (o.reverse.drop start).take (end_ - start) = ((o.drop m1).take bn).reverse := by
+  refine ⟨?_, ?_, ?_⟩
+  · rw [List.take_reverse]; congr 2; omega
+  · rw [List.drop_reverse]; congr 2; omega
+  · rw [List.drop_reverse, List.take_reverse, List.drop_take]
+    have e1 : o.length - start = m1 + bn := by omega
+    have e2 : (o.take (m1 + bn)).length - (end_ - start) = m1 := by
+      simp only [List.length_take]; omega
+    rw [e1, e2]
+    congr 2; omega
+
+/-- **`backtrack_cut`, literally, is the model's `backtrackCut`** — on every state and every count
+    (equal results, and a panic on one side iff on the other). This closes the gap "the literal
+    `swap` loop of `backtrack_cut` is modelled by the order-preserving filter `cutKeep`". -/
+theorem C20_backtrackCut_literal (s : State) (count : Nat) :
+    backtrackCutLit s count = s.backtrackCut count := by
+  unfold backtrackCutLit State.backtrackCut
+  simp only [List.length_reverse]
+  by_cases heq : s.stack.length = count
+  · simp [heq]
+  · by_cases hlt : s.stack.length < count
+    · have : s.stack.length < count + 1 := by omega
+      simp [heq, hlt, this]
+    · have h1 : ¬ s.stack.length < count + 1 := by omega
+      simp only [beq_iff_eq, heq, hlt, h1, ↓reduceIte]
+      generalize hk : s.stack.length - count = k
+      have hdrop : s.stack.reverse.drop (count + 1) = (s.stack.take (k - 1)).reverse := by
+        rw [List.drop_reverse]; congr 2; omega
+      have hget : s.stack.reverse[count]? = s.stack[k - 1]? := by
+        rw [List.getElem?_reverse (by omega)]; congr 1; omega
+      have htk : (s.stack.reverse.take count).reverse = s.stack.drop k := by
+        rw [List.take_reverse, List.reverse_reverse, hk]
+      simp only [hdrop, hget, csub_fold, sumNsave_reverse, htk]
+      obtain ⟨b, hb⟩ : ∃ b, s.stack[k - 1]? = some b :=
+        ⟨s.stack[k - 1]'(by omega), List.getElem?_eq_getElem (by omega)⟩
+      simp only [hb, Option.bind_some]
+      generalize hS : sumNsave (s.stack.take (k - 1)) = S
+      by_cases hfit : s.nsave + S + b.nsave ≤ s.oldsave.length
+      · have c1 : s.nsave ≤ s.oldsave.length := by omega
+        have c2 : S ≤ s.oldsave.length - s.nsave := by omega
+        have c3 : b.nsave ≤ s.oldsave.length - s.nsave - S := by omega
+        have c4 : ¬ (s.nsave + S + b.nsave > s.oldsave.length) := by omega
+        simp only [csub, c1, c2, c3, c4, ↓reduceIte, Option.bind_some]
+        generalize hend : s.oldsave.length - s.nsave - S = end_
+        generalize hstart : end_ - b.nsave = start
+        obtain ⟨A, B, C⟩ := lit_slices s.oldsave (s.nsave + S) b.nsave end_ start hfit (by omega) hstart.symm
+        rw [C20_cutLoop_eq_cutKeep]
+        have c5 : start ≤ end_ ∧ end_ ≤ s.oldsave.reverse.length := by
+          simp only [List.length_reverse]; omega
+        simp only [c5, and_self, ↓reduceIte, Option.bind_some, A, B, C]
+        have hcg : cutKeep (((s.oldsave.drop (s.nsave + S)).take b.nsave).reverse.map (·.1))
+              (s.oldsave.take (s.nsave + S)).reverse =
+            cutKeep (((s.oldsave.drop (s.nsave + S)).take b.nsave).map (·.1))
+              (s.oldsave.take (s.nsave + S)).reverse := by
+          apply cutKeep_congr
+          intro x
+          rw [Bool.eq_iff_iff]
+          simp [List.contains_iff_mem]
+        rw [hcg]
+        generalize cutKeep (((s.oldsave.drop (s.nsave + S)).take b.nsave).map (·.1))
+              (s.oldsave.take (s.nsave + S)).reverse = kept
+        congr 2
+        · rw [List.reverse_append, List.reverse_reverse, List.append_assoc]
+          congr 1
+          have hdd : s.oldsave.drop (s.nsave + S + b.nsave) = (s.oldsave.drop (s.nsave + S)).drop b.nsave := by
+            rw [List.drop_drop]
+          rw [hdd, List.take_append_drop]
+        · omega
+      · have c4 : s.nsave + S + b.nsave > s.oldsave.length := by omega
+        simp only [c4, ↓reduceIte, csub]
+        by_cases c1 : s.nsave ≤ s.oldsave.length
+        · simp only [c1, ↓reduceIte, Option.bind_some]
+          by_cases c2 : S ≤ s.oldsave.length - s.nsave
+          · simp only [c2, ↓reduceIte, Option.bind_some]
+            have c3 : ¬ b.nsave ≤ s.oldsave.length - s.nsave - S := by omega
+            simp only [c3, ↓reduceIte, Option.bind_none]
+          · simp only [c2, ↓reduceIte, Option.bind_none]
+        · simp only [c1, ↓reduceIte, Option.bind_none]
 
 end Fancy
